@@ -47,8 +47,7 @@ def cases(draw, tier):
     if shape == "boundary":
         # guide-tree distances at the edges of small integer types: two shorter sequences whose semi-global distance to the
         # duplicated sequence is exactly 255 / 256 / 257 (built in check() from these parameters by a pure function)
-        return {"boundary": {"seed": draw(st.integers(0, 2 ** 32 - 1)), "kind": k, "targets": [draw(st.sampled_from([255, 256, 256, 257])),
-                                                                                              draw(st.sampled_from([255, 256, 256, 257]))],
+        return {"boundary": {"seed": draw(st.integers(0, 2 ** 32 - 1)), "kind": k, "targets": draw(st.sampled_from([[256, 256], [256, 256], [255, 256], [256, 257], [255, 255], [257, 257], [255, 257]])),
                              "la": draw(st.integers(540, 700)), "extra": draw(st.integers(0, 3))},
                 "seqs": None, "cfg": {"type": draw(gen.types_for(k)), "threads": draw(gen.threads), "gpo": -1.0, "gpe": -1.0, "tgpe": -1.0},
                 "entry": draw(st.sampled_from(["arr", "file"])), "shape": shape}
@@ -108,18 +107,24 @@ def build_boundary(b):
         L = rnd.randint(tgt + 120, min(b["la"] - 20, tgt + 230))
         off = rnd.randint(0, b["la"] - L)
         c = list(A[off:off + L])
-        order = list(range(L))
-        rnd.shuffle(order)
         d = 0
-        for pos in order:
+        # edits one at a time (substitutions, and - so that aligning the neighbour needs gaps - insertions and deletions),
+        # each accepted only if the independent semi-global distance does not overshoot the target
+        for _attempt in range(6 * tgt):
             if d >= tgt:
                 break
-            old = c[pos]
-            choices = [x for x in alpha if red(x) != red(old)]
-            c[pos] = rnd.choice(choices)
+            pos = rnd.randrange(len(c))
+            r = rnd.random()
+            old = list(c)
+            if r < 0.7 or not b.get("indels", True):
+                c[pos] = rnd.choice([x for x in alpha if red(x) != red(c[pos])])
+            elif r < 0.85:
+                c.insert(pos, rnd.choice(alpha))
+            elif len(c) > tgt + 60:
+                del c[pos]
             nd = dporacle.sellers(red(A), red("".join(c)))
-            if nd > tgt:
-                c[pos] = old
+            if nd > tgt or nd < d:
+                c = old
             else:
                 d = nd
         if d != tgt:
